@@ -53,7 +53,9 @@ def gen(rng, tier):
                     if step and (now + 8 * step >= 2 ** 63 or now + 8 * step < -2 ** 63): continue
                     k = rng.choice(keys)
                     cases.append(Case("totpnow %s %s 30 6 %d %d %d" % (t, hexs(k), now, err, step),
-                                      "totpnow %s now%s err=%d step=%d" % (t, "<0" if now < 0 else ">=0", err, step), now >= 0))
+                                      "totpnow %s now%s err=%d step=%d" % (t, "<0" if now < 0 else ">=0", err, step), now >= 0,
+                                      # C06_clock: with a working non-negative clock the clock form is the explicit form at the (single) reading
+                                      spec=("spec.totpat %s %s %d 30 6" % (t, hexs(k), now)) if (now >= 0 and not err) else None))
     # the truncation helper on synthetic digests: every offset nibble, sign bit, lengths around offset+4
     for ln in [0, 1, 3, 4, 5, 16, 19, 20, 21, 32, 64]:
         for off in range(16):
